@@ -274,6 +274,27 @@ Section RF.
     clear -HQR Hh. induction Hh; constructor; auto.
   Qed.
 
+
+  (* ---- what the operation reports: the fault-free run, or what a handler returns ---- *)
+  Lemma quietQ_run {A} (Q : A -> Prop) f (h : rprog A) :
+    quietQ Q h -> forall s : rstate, Q (snd (run f (erase h) s)).
+  Proof.
+    induction 1 as [a Ha | x k Hx Hk IH]; intros s; cbn [erase]; [exact Ha|].
+    rewrite run_bind. destruct (run f (record_release x) s) as [s' b]. apply IH.
+  Qed.
+
+  (* either the n-th read is never reached - the run is the fault-free run - or the result is one a
+     handler returns *)
+  Theorem rfail_result {A} (Q : A -> Prop) (p : rprog A) : hqQ Q p -> forall n f (s : rstate),
+    run f (rfail n p) s = run f (erase p) s \/ Q (snd (run f (rfail n p) s)).
+  Proof.
+    induction 1 as [a | e k h He Hk IH Hh | C q k Hk IH]; intros n f s; cbn [rfail erase].
+    - now left.
+    - destruct n as [|n']; [right; now apply quietQ_run|].
+      simpl. destruct (step f e s) as [s' r]. apply IH.
+    - rewrite !run_bind. destruct (run f q s) as [s' b]. apply IH.
+  Qed.
+
   (* ---- the transfer principle ---- *)
   Section Transfer.
     Variable P : list release -> Prop.
